@@ -402,7 +402,7 @@ func allBytesCompared(f *ssa.Function, A *ssa.Parameter, sum *ssa.Call) (bool, s
 	any := false
 	for _, b := range f.Blocks {
 		ret, ok := b.Instrs[len(b.Instrs)-1].(*ssa.Return)
-		if !ok || len(ret.Results) != 1 {
+		if !ok || b == f.Recover || len(ret.Results) != 1 {
 			continue
 		}
 		res := ret.Results[0]
